@@ -694,6 +694,86 @@ class Gen:
                     self.add(f"cm:{mname}[{e}]@{base:#x}", mname, rscript + wscript, check,
                              variant=sorted(k for k, x in bases.items() if x == base)[0], disputed=base != bases.get("json", base))
 
+    # -- interrupted multi-word writes ---------------------------------------------------------------------------------
+    def interleave_tests(self):
+        """For every multi-word storage register and every element {0, last} of a writable CSR memory wider than the CSR
+        bus: write all chunks but the last, then write another published writable item of ANOTHER bank (every such item
+        of the SoC in turn), then the last chunk.  Contract of the accessors: non-atomic register - every word lands;
+        atomic register / memory word - nothing is visible before the last chunk, which commits the staged chunks
+        intact; the interloper holds its own value; nothing else changes."""
+        b, v = self.b, self.v
+        bw = v.busword
+        paths, pidx = self.paths, self.pidx
+
+        def reg_var(name):
+            nw = len(v.wordmaps[name]["json"])
+            return "native" if (b.ordering == "little" and nw > 1) else "header"
+
+        def mem_ops(mname, e, val):
+            mem, ro = b.csrmems[mname]
+            cpw = (mem.width + bw - 1) // bw
+            base = v.js["csr_bases"][mname]
+            return [("w", base + 4 * (e * cpw + k), (val >> (bw * (cpw - 1 - k))) & ((1 << bw) - 1)) for k in range(cpw)]
+
+        # writable published items: (label, bank, path in the snapshot, size, ops(value), requires, staged)
+        items = []
+        for name in sorted(v.js["csr_registers"]):
+            r = b.regs.get(name)
+            if r is None or r.wpath is None or "header" not in v.wordmaps.get(name, {}) or "json" not in v.wordmaps[name]:
+                continue
+            items.append(dict(label=name, bank=r.module, path=r.wpath, size=r.size, req=[name],
+                              ops=lambda val, name=name: self.write_ops(name, val, reg_var(name))[0],
+                              nw=len(v.wordmaps[name]["json"]), staged=r.atomic, target=r.kind == "storage"))
+        for mname, (mem, ro) in sorted(b.csrmems.items()):
+            if ro or mname not in v.js["csr_bases"]:
+                continue
+            cpw = (mem.width + bw - 1) // bw
+            for e in sorted({0, mem.depth - 1}):
+                items.append(dict(label=f"{mname}[{e}]", bank=mname, path=("csrmem", mname, e), size=mem.width, req=[mname],
+                                  ops=lambda val, mname=mname, e=e: mem_ops(mname, e, val), nw=cpw, staged=True, target=True,
+                                  interloper=e == 0))
+        k = 0
+        for t in items:
+            if t["nw"] < 2 or not t["target"]:
+                continue
+            for i in items:
+                if i["bank"] == t["bank"] or not i.get("interloper", True):
+                    continue
+                k += 1
+                P = pattern(t["size"], self.salt + k + 4)
+                Q = pattern(i["size"], self.salt + k + 9)
+                tops, iops = t["ops"](P), i["ops"](Q)
+                script = [("snap",)] + tops[:-1] + [("idle", 1), ("snap",)] + iops + [("idle", 2), ("snap",)] + tops[-1:] + [("idle", 2), ("snap",)]
+                ti, ii = pidx[t["path"]], pidx[i["path"]]
+
+                def check(res, t=t, i=i, P=P, Q=Q, ti=ti, ii=ii):
+                    fails = []
+                    what = f"{t['label']} interrupted by a write to {i['label']}"
+                    if not acc_ok(res, fails, what):
+                        return fails
+                    s0, s1, s2, s3 = res["snaps"]
+                    det = dict(target=t["label"], interloper=i["label"], target_value=hex(P), interloper_value=hex(Q))
+                    d1 = diff_snap(paths, s0, s1)
+                    bad1 = {k_: x for k_, x in d1.items() if k_ != t["path"] or t["staged"]}
+                    if bad1:
+                        fails.append(("interleave", f"{what}: the first {t['nw'] - 1} chunk(s) of {t['label']} change {({str(k_): tuple(map(hex, x)) for k_, x in list(bad1.items())[:3]})}"
+                                      + (" before the committing chunk" if t["staged"] else ""), det))
+                        return fails
+                    want2 = list(s1)
+                    want2[ii] = Q
+                    if tuple(want2) != s2:
+                        d = diff_snap(paths, tuple(want2), s2)
+                        fails.append(("interleave", f"{what}: after the interloper write {({str(k_): tuple(map(hex, x)) for k_, x in list(d.items())[:3]})} (expected, got)", det))
+                        return fails
+                    want3 = list(s0)
+                    want3[ti], want3[ii] = P, Q
+                    if tuple(want3) != s3:
+                        d = diff_snap(paths, tuple(want3), s3)
+                        fails.append(("interleave", f"{what}: after the last chunk {({str(k_): tuple(map(hex, x)) for k_, x in list(d.items())[:3]})} (expected, got); "
+                                      f"{t['label']} should hold {P:#x} and {i['label']} {Q:#x}", det))
+                    return fails
+                self.add(f"il:{t['label']}<{i['label']}", f"{t['label']}<{i['label']}", script, check, requires=t["req"] + i["req"])
+
     # -- bus memory regions --------------------------------------------------------------------------------------
     def busmem_tests(self):
         b, v = self.b, self.v
@@ -825,6 +905,7 @@ def gen_tests(b, v, static_out):
     g.reg_tests()
     g.field_tests(static_out)
     g.csrmem_tests(static_out)
+    g.interleave_tests()
     g.busmem_tests()
     g.irq_tests()
     return g.tests
@@ -842,7 +923,7 @@ def rule_of(kind, cfg, reg, variant=None):
     if kind == "order":
         # generated accessors / SVD sub-register names are MSW-first whatever csr_ordering says
         return "csr.order.little" if ordering == "little" else "csr.order"
-    return {"field": "csr.field", "csrmem": "csr.mem", "busmem": "mem.region", "irq": "irq.number", "image": "memdata.rom",
+    return {"field": "csr.field", "csrmem": "csr.mem", "interleave": "csr.interleave", "busmem": "mem.region", "irq": "irq.number", "image": "memdata.rom",
             "hang": "bus.hang"}[kind]
 
 
@@ -890,7 +971,7 @@ def run_soc(cfg, seed):
     evaluations = 0
     targets = set()
     masked = 0
-    cover = dict(tests=0, regs=0, multiword=0, atomic=0, fields=0, csrmems=0, busmems=0, irqs=0, status_driven=0)
+    cover = dict(tests=0, regs=0, multiword=0, atomic=0, fields=0, csrmems=0, busmems=0, irqs=0, status_driven=0, interleaved=0)
     dead = False
     for t in tests:
         if any(rq in failed_regs for rq in t.requires):
@@ -929,6 +1010,7 @@ def run_soc(cfg, seed):
         cover["csrmems"] += int(c == "cm")
         cover["busmems"] += int(c == "bm")
         cover["irqs"] += int(c == "irq")
+        cover["interleaved"] += int(c == "il")
     # anti-vacuity: every menu must really have produced the item classes it was written for
     M = b.menu
     want = dict(regs=len(b.regs), csrmems=len(b.csrmems), busmems=len(b.soc.bus.regions),
@@ -938,6 +1020,8 @@ def run_soc(cfg, seed):
     for k, n in want.items():
         if cover[k] < n or (k == "regs" and n < 4):
             raise MachineryError(f"{name}: vacuous run, {k}: {cover[k]} tested, {n} expected ({cover})")
+    if cover["multiword"] and not cover["interleaved"]:
+        raise MachineryError(f"{name}: vacuous run, no interrupted multi-word write generated")
     if sum(1 for _, items, *_ in M["periphs"] for it in items if it[0] in ("stf", "rof")) and not cover["fields"]:
         raise MachineryError(f"{name}: vacuous run, no field test generated")
     # classification -> rules; one violation per rule and configuration (the first), the rest is counted
@@ -949,7 +1033,7 @@ def run_soc(cfg, seed):
             # the formats publish different addresses for this item and this one is wrong: name the format
             rule = ("csr.mem." if kind == "csrmem" else "csr.addr.") + str(t.variant)
         else:
-            if cfg[5] == 8 and any_addr and kind in ("order", "field", "csrmem", "irq"):
+            if cfg[5] == 8 and any_addr and kind in ("order", "field", "csrmem", "irq", "interleave"):
                 kind = "addr"      # with 8-bit CSRs nothing answers at the published address: one class, not four
             rule = rule_of(kind, cfg, reg, t.variant)
         byrule.setdefault(rule, []).append((msg, detail, t))
@@ -957,7 +1041,7 @@ def run_soc(cfg, seed):
     for rule, lst in sorted(byrule.items()):
         # the cheapest failing test of the class whose outcome does not depend on earlier tests (it drives / writes what
         # it compares) is re-run from reset on LiteX's own simulator; at least one member of the class must reproduce
-        selfc = lambda t: t.tid[0] == "w" or t.tid.startswith(("fw", "fr", "cm", "bm", "irq")) or t.target in b.drive
+        selfc = lambda t: t.tid[0] == "w" or t.tid.startswith(("fw", "fr", "cm", "bm", "irq", "il")) or t.target in b.drive
         lst.sort(key=lambda x: (not selfc(x[2]), x[2].nacc, x[2].tid))
         rp = None
         for msg, detail, t in lst[:4]:
